@@ -2,6 +2,13 @@
 //! keyframe-window / SRT-retransmit priority override, forward_via_connection, duplicate probes)
 //! on one symbolic client datagram over 2 symbolic links.  Also decides C10 (d) (classic mode:
 //! every packet kind goes to the reference argmax) and the tracker-insert rule of C05.
+//!
+//! NOT REGISTERED.  With `poll_once`, the direct-future hook wrapper and the verif-model ConnIoMap
+//! seam the harness gets much further than before, but `handle_srt_packet` itself awaits nested
+//! async fns (`forward_via_connection`, `send_stall_probes`, `send_connection_batch`): their futures
+//! live in state variants of the outer coroutine, CBMC loses every constant there (the empty I/O map,
+//! the batch threshold), walks the whole flush path and runs past 11 GB / 25 min even for one link.
+//! The defect this harness asserts against (F5) was confirmed natively instead; see DESIGN.md 5.
 use std::collections::HashMap;
 use std::mem::MaybeUninit;
 
@@ -9,12 +16,11 @@ use srtla_core::config_snapshot::ConfigSnapshot;
 use srtla_core::connection::{LinkPhase, SrtlaConnection};
 use srtla_core::mode::SchedulingMode;
 use srtla_core::priority::CriticalWindow;
-use srtla_send::sender::verif_hooks::{handle_srt_packet, ConnIoMap, SequenceTracker};
+use srtla_send::sender::verif_hooks::{handle_srt_packet_fut as handle_srt_packet, ConnIoMap, SequenceTracker};
 
 use crate::shellutil::*;
 use crate::util::*;
 
-const N: usize = 2;
 const PKT: usize = 16;
 
 pub fn rs_stub() -> std::hash::RandomState {
@@ -33,7 +39,7 @@ pub fn soft_cap_abs(c: &SrtlaConnection) -> f64 {
     leaf_tables::soft_cap(c)
 }
 
-fn run(mode: SchedulingMode, sym: Sym) {
+fn run<const N: usize>(mode: SchedulingMode, sym: Sym) {
     let now = any_now();
     set_clock(now);
     let mut cfg = any_config(mode);
@@ -43,7 +49,7 @@ fn run(mode: SchedulingMode, sym: Sym) {
         v
     });
     let mut conns: [SrtlaConnection; N] = core::array::from_fn(|i| build_conn(i as u64 + 1, &vals[i]));
-    let conn_io: ConnIoMap = HashMap::new();
+    let conn_io: ConnIoMap = ConnIoMap::new();
     let mut last_sel: Option<usize> = if kani::any() { Some(kani::any::<usize>() % 3) } else { None };
     let mut tracker = SequenceTracker::new();
     let mut client: Option<std::net::SocketAddr> = None;
@@ -79,7 +85,13 @@ fn run(mode: SchedulingMode, sym: Sym) {
         total += grew[i];
         i += 1;
     }
-    if usable0[0] || usable0[1] {
+    let mut any_usable = false;
+    let mut u = 0;
+    while u < N {
+        any_usable |= usable0[u];
+        u += 1;
+    }
+    if any_usable {
         assert!(total >= 1, "with a usable uplink the datagram is queued somewhere (C03 through the shell)");
     }
     if total >= 1 {
@@ -117,7 +129,7 @@ fn run(mode: SchedulingMode, sym: Sym) {
         }
     }
     let rexmit = n >= 8 && buf[0] & 0x80 == 0 && buf[4] & 0x04 != 0;
-    kani::cover!(total == 2, "a duplicate probe was sent");
+    kani::cover!(N < 2 || total == 2, "a duplicate probe was sent");
     kani::cover!(total == 1 && rexmit, "retransmit-flagged data routed");
     kani::cover!(total == 1 && critical && is_data, "data inside a critical window routed");
     kani::cover!(total == 1 && !is_data, "control packet routed");
@@ -137,7 +149,7 @@ fn client_addr() -> std::net::SocketAddr {
 #[kani::stub(std::hash::RandomState::new, rs_stub)]
 #[kani::stub(alloc::fmt::format, no_format)]
 fn c04_srt_packet_classic() {
-    run(SchedulingMode::Classic, SYM_INT);
+    run::<2>(SchedulingMode::Classic, SYM_INT);
 }
 
 #[kani::proof]
@@ -148,5 +160,23 @@ fn c04_srt_packet_classic() {
 #[kani::stub(srtla_core::selection::enhanced::in_flight_cap_exceeded, cap_exceeded_abs)]
 #[kani::stub(srtla_core::selection::enhanced::cc_soft_cap_multiplier, soft_cap_abs)]
 fn c04_srt_packet_enhanced() {
-    run(SchedulingMode::Enhanced, SYM_LEAF);
+    run::<2>(SchedulingMode::Enhanced, SYM_LEAF);
+}
+
+#[kani::proof]
+#[kani::unwind(6)]
+#[kani::stub(srtla_core::utils::now_ms, stub_now_ms)]
+#[kani::stub(alloc::fmt::format, no_format)]
+fn c04_srt_packet_classic_n1() {
+    run::<1>(SchedulingMode::Classic, SYM_INT);
+}
+
+#[kani::proof]
+#[kani::unwind(6)]
+#[kani::stub(srtla_core::utils::now_ms, stub_now_ms)]
+#[kani::stub(alloc::fmt::format, no_format)]
+#[kani::stub(srtla_core::selection::enhanced::in_flight_cap_exceeded, cap_exceeded_abs)]
+#[kani::stub(srtla_core::selection::enhanced::cc_soft_cap_multiplier, soft_cap_abs)]
+fn c04_srt_packet_enhanced_n1() {
+    run::<1>(SchedulingMode::Enhanced, SYM_LEAF);
 }
